@@ -59,8 +59,7 @@ Definition wf (c : lcase) : bool :=
   forallb (fun g => negb (calls_bad 0 (all_true (gv_calls g)) (gv_calls g) (gv_unph g))) (l_gs c)
   && forallb (hap_ok (l_gs c)) (load_haps None (l_lines c))
   && nodupb (hap_ids (l_lines c) ++ var_ids (l_gs c))
-  && (memZ (l_target c) (hap_ids (l_lines c)) || memZ (l_target c) (var_ids (l_gs c)))
-  && match l_ids c with None => true | Some l => nodupb l end.
+  && (memZ (l_target c) (hap_ids (l_lines c)) || memZ (l_target c) (var_ids (l_gs c))).
 
 Definition dosage_of (c : lcase) (as_variant : bool) (id : Z) : option (list Z) :=
   if as_variant then option_map (var_dosage (l_keep c)) (find_var id (l_gs c))
@@ -72,7 +71,7 @@ Definition target_is_hap (c : lcase) : bool := memZ (l_target c) (hap_ids (l_lin
 
 Definition requested (c : lcase) : list Z :=
   let universe := if l_fg c then var_ids (l_gs c) else hap_ids (l_lines c) in
-  let req := match l_ids c with None => universe | Some l => filter (fun id => memZ id universe) l end in
+  let req := match l_ids c with None => universe | Some l => filter (fun id => memZ id universe) (dedup l) end in
   if l_fg c then req else filter (fun id => negb (id =? l_target c)) req.
 
 Definition countZ (x : Z) (l : list Z) : Z := lenZ (filter (Z.eqb x) l).
@@ -115,7 +114,7 @@ Definition rows_agree (m : list row) (o : list orow) : bool :=
   all2 (fun (a : row) (b : orow) => (fst a =? fst b) && r_near (snd b) (snd a)) m o.
 
 Definition model_ld (c : lcase) : res (list row) :=
-  calc_ld false (l_target c) (l_gs c) (l_lines c) (l_keep c) (l_ids c) (l_fg c).
+  calc_ld_cli false (l_target c) (l_gs c) (l_lines c) (l_keep c) (l_ids c) (l_fg c).
 
 (* the swapped run: target B, listing chosen so that the original target appears *)
 Definition model_sym (c : lcase) (b : Z) : res (option (Z * Q)) :=
@@ -142,4 +141,4 @@ Definition check_ld (c : lcase) : bool * bool :=
 
 (* the pinned tree, for the _refuted example *)
 Definition legacy_ld (c : lcase) : res (list row) :=
-  calc_ld true (l_target c) (l_gs c) (l_lines c) (l_keep c) (l_ids c) (l_fg c).
+  calc_ld_cli true (l_target c) (l_gs c) (l_lines c) (l_keep c) (l_ids c) (l_fg c).
